@@ -40,7 +40,11 @@ func constructedValues() []constructedValue {
 			return p
 		}},
 		{"ServiceNew bare", func() vocab.Item { return vocab.ServiceNew(id("bot")) }},
-		{"ActorNew(Actor)", func() vocab.Item { a := vocab.ActorNew(id("generic"), vocab.ActorType); a.Name = nl("generic actor"); return a }},
+		{"ActorNew(Actor)", func() vocab.Item {
+			a := vocab.ActorNew(id("generic"), vocab.ActorType)
+			a.Name = nl("generic actor")
+			return a
+		}},
 		{"CreateNew(note by person)", func() vocab.Item {
 			o := vocab.ObjectNew(vocab.NoteType)
 			o.ID = id("created")
@@ -105,7 +109,12 @@ func constructedValues() []constructedValue {
 			l.Width, l.Height = 640, 480
 			return l
 		}},
-		{"MentionNew+href", func() vocab.Item { m := vocab.MentionNew(id("mention")); m.Href = id("mentioned"); m.Name = nl("@someone"); return m }},
+		{"MentionNew+href", func() vocab.Item {
+			m := vocab.MentionNew(id("mention"))
+			m.Href = id("mentioned")
+			m.Name = nl("@someone")
+			return m
+		}},
 		{"decoded then modified", func() vocab.Item {
 			it, err := vocab.UnmarshalJSON([]byte(`{"id":"https://example.com/made/decoded","type":"Note","name":"decoded","to":["https://www.w3.org/ns/activitystreams#Public"],"tag":[{"type":"Mention","href":"https://example.com/made/m","name":"@m"}]}`))
 			if err != nil || it == nil {
